@@ -187,6 +187,7 @@ def check_C01(replay=None):
     thorough = chk.tier == "thorough"
     res = tlc_mc("MC_Assembler", "MC_Assembler_deep.cfg" if thorough else "MC_Assembler.cfg", workers=8, coverage=False, timeout=1500)
     chk.add_mc(res, "MC_Assembler")
+    chk.add_mc(tlc_mc("MC_AsmISA", "MC_AsmISA.cfg", workers=4, coverage=False), "MC_AsmISA")
     stride = 1
     nphase = 8
     jobs = []
